@@ -88,7 +88,7 @@ fn case_json(kvs: &[Kv], fr: Front, geom: Geom) -> Value {
 }
 
 pub fn replay(case: &Value) -> Result<String, String> {
-    let kvs = kvs_from(&case["kvs"]);
+    let kvs = if case["big_dense"].as_bool() == Some(true) { big_dense_family() } else { kvs_from(&case["kvs"]) };
     let fr = front_from(case["front"].as_str().unwrap());
     let geom = geom_from(&case["geom"]);
     run_case(&kvs, fr, geom, true).map(|h| format!("bytes fnv {:x}", h))
@@ -103,11 +103,13 @@ fn do_case(kvs: &[Kv], fr: Front, geom: Geom, full: bool, st: &mut Stats, rep: &
     st.evals += 1;
     match run_case(kvs, fr, geom, full) {
         Ok(h) => st.outcome(h),
-        Err(msg) => rep.violation(
-            format!("{} {:?} {:?}", kvs_str(kvs), fr, geom),
-            msg,
-            case_json(kvs, fr, geom),
-        ),
+        Err(msg) => {
+            if kvs.len() > 5000 {
+                rep.violation(format!("{} keys from {} {:?} {:?}", kvs.len(), key_str(&kvs[0].0), fr, geom), msg, json!({"big_dense": true, "front": format!("{:?}", fr), "geom": [geom.0, geom.1]}));
+            } else {
+                rep.violation(format!("{} {:?} {:?}", kvs_str(kvs), fr, geom), msg, case_json(kvs, fr, geom));
+            }
+        }
     }
 }
 
@@ -362,6 +364,24 @@ pub fn plan(tier: Tier) -> Plan {
             }));
         }
     }
+    // (d6) fan-out x output-width grid (all 257 fan-outs x 9 widths x final x child kind)
+    for part in 0..32usize {
+        p.units.push(unit("fanout-x-output-width-grid", format!("grid part {}", part), move |st, rep| {
+            for (_, kvs) in fan_width_grid(part, 32) {
+                st.nontrivial += (kvs.len() >= 2) as u64;
+                st.count("grid_cases", 1);
+                do_case(&kvs, Front::RawInsert, (3, 3), false, st, rep);
+                do_case(&kvs, Front::RawInsert, DEFAULT_GEOM, false, st, rep);
+            }
+        }));
+    }
+    // (d7) a file larger than 16 MiB (4-byte address deltas) made of few large nodes
+    p.units.push(unit("file-larger-than-16MiB", "big dense".into(), move |st, rep| {
+        let kvs = big_dense_family();
+        st.nontrivial += 1;
+        st.count("big_file_cases", 1);
+        do_case(&kvs, Front::RawInsert, DEFAULT_GEOM, false, st, rep);
+    }));
     // (e) size families (thorough): 2-, 3- and 4-byte address deltas
     if thorough {
         for n in [3_000u64, 70_000, 1_200_000] {
